@@ -13,12 +13,16 @@ OP  {'op': 'write', 'path': name|None, 'comments': [str]}
     {'op': 'append_missing', 'path': name, 'entries': [ENTRY], 'clock': str}   (filename temporarily set to a missing file)
     {'op': 'reread'}
 ENTRY {'k': key, 'text': value} | {'k': key, 'table': index of the table in DOC, 'rows': [[cell]], 'form': 'lists'|'recarray'}
-STEP  outcome class, file name of the object, bytes of every file in the directory, dump of the object, dump of a
-      fresh yanny(filename) re-read.
+STEP  outcome class, file name of the object, [sha1, size, mtime_ns] of every file in the directory ('DIR' for a directory),
+      dump of the object, dump of a fresh yanny(filename) re-read, caller_data_changed (the dict / record arrays / comment
+      list handed to the call differ afterwards), bystander_changed (a second live object's dump changed).
+A job may carry 'plant': [{'name', 'cls', 'hex'}] -- files (or a directory) that are already there when the history starts:
+zero bytes, a lone newline, blanks only, another yanny file, garbage, a directory, a read-only file.
 """
 import hashlib
 import json
 import os
+import shutil
 import sys
 import warnings
 from collections import OrderedDict
@@ -88,11 +92,43 @@ def build_dict(doc, entries):
 
 
 def snapshot(dirname):
+    """every entry of the directory: a file as [sha1, size, mtime_ns], a directory as 'DIR'"""
     out = {}
     for f in sorted(os.listdir(dirname)):
-        with open(os.path.join(dirname, f), 'rb') as fh:
-            out[f] = hashlib.sha1(fh.read()).hexdigest()
+        p = os.path.join(dirname, f)
+        if os.path.isdir(p):
+            out[f] = 'DIR'
+            continue
+        with open(p, 'rb') as fh:
+            data = fh.read()
+        st = os.stat(p)
+        out[f] = [hashlib.sha1(data).hexdigest(), st.st_size, st.st_mtime_ns]
     return out
+
+
+def plant(dirname, item):
+    """a file that is already there when the history starts"""
+    p = os.path.join(dirname, item['name'])
+    if item['cls'] == 'dir':
+        os.mkdir(p)
+        return
+    with open(p, 'wb') as fh:
+        fh.write(bytes.fromhex(item['hex']))
+    if item['cls'] == 'readonly':
+        os.chmod(p, 0o444)
+
+
+def fingerprint(v):
+    """the caller's data, bit for bit"""
+    if isinstance(v, np.ndarray):
+        return ['ndarray', str(v.dtype.descr), list(v.shape), v.tobytes().hex()]
+    if isinstance(v, dict):
+        return ['dict', [[k, fingerprint(x)] for k, x in v.items()]]
+    if isinstance(v, (list, tuple)):
+        return [type(v).__name__, [fingerprint(x) for x in v]]
+    if isinstance(v, np.generic):
+        return ['scalar', str(v.dtype), v.tobytes().hex()]
+    return [type(v).__name__, repr(v)]
 
 
 def classify(exc):
@@ -105,11 +141,11 @@ def classify(exc):
 
 def observe(par, dirname, raw):
     ob = {'filename': os.path.basename(par.filename) if par.filename else '', 'files': snapshot(dirname), 'bytes_hex': None}
-    if par.filename and os.path.exists(par.filename):
+    if par.filename and os.path.isfile(par.filename):
         with open(par.filename, 'rb') as fh:
             ob['bytes_hex'] = fh.read().hex()
     ob['object'] = guarded(lambda: dump_yanny(par, raw=raw))
-    if par.filename and os.path.exists(par.filename):
+    if par.filename and os.path.isfile(par.filename):
         ob['reread'] = guarded(lambda: dump_yanny(yanny(par.filename, raw=raw), raw=raw))
     else:
         ob['reread'] = None
@@ -121,9 +157,10 @@ def run_history(job, workdir):
     raw = bool(job.get('raw'))
     dirname = os.path.join(workdir, job['id'])
     if os.path.isdir(dirname):
-        for f in os.listdir(dirname):
-            os.remove(os.path.join(dirname, f))
+        shutil.rmtree(dirname)
     os.makedirs(dirname, exist_ok=True)
+    for item in job.get('plant') or []:
+        plant(dirname, item)
     res = {'id': job['id'], 'steps': []}
     arrays = [build_array(t) for t in doc['tables']] if job.get('text') is None else []
     names = [t['name'] for t in doc['tables']]
@@ -145,6 +182,15 @@ def run_history(job, workdir):
         res['init'] = {'exc': type(e).__name__, 'msg': str(e)[:200]}
         return res
     res['init'] = observe(par, dirname, raw)
+    # a second object alive in the same process: read from a planted yanny file with the same table names if there is one,
+    # else a second read of the object's own file; it must never change, whatever happens to the first object
+    other = None
+    try:
+        twin = [it['name'] for it in (job.get('plant') or []) if it['cls'] == 'yanny']
+        other = yanny(os.path.join(dirname, twin[0]) if twin else p0, raw=raw)
+        other_dump = json.dumps(guarded(lambda: dump_yanny(other, raw=raw)), sort_keys=True)
+    except Exception:  # noqa: BLE001
+        other = None
     for op in job['ops']:
         exc = None
         warned = False
@@ -152,16 +198,23 @@ def run_history(job, workdir):
         with warnings.catch_warnings(record=True) as wl:
             warnings.simplefilter('always')
             try:
+                handed = None
                 if op['op'] == 'write':
                     target = os.path.join(dirname, op['path']) if op['path'] is not None else None
-                    par.write(target, comments=list(op['comments']))
+                    handed = list(op['comments'])
+                    fp0 = fingerprint(handed)
+                    par.write(target, comments=handed)
                 elif op['op'] == 'append':
-                    par.append(build_dict(doc, op['entries']))
+                    handed = build_dict(doc, op['entries'])
+                    fp0 = fingerprint(handed)
+                    par.append(handed)
                 elif op['op'] == 'append_missing':
                     saved = par.filename
                     par.filename = os.path.join(dirname, op['path'])
+                    handed = build_dict(doc, op['entries'])
+                    fp0 = fingerprint(handed)
                     try:
-                        par.append(build_dict(doc, op['entries']))
+                        par.append(handed)
                     finally:
                         par.filename = saved
                 elif op['op'] == 'reread':
@@ -172,6 +225,9 @@ def run_history(job, workdir):
                 exc = e
             warned = any(issubclass(w.category, PydlutilsUserWarning) for w in wl)
         st = observe(par, dirname, raw)
+        st['caller_data_changed'] = bool(handed is not None and fingerprint(handed) != fp0)
+        st['bystander_changed'] = bool(other is not None and
+                                       json.dumps(guarded(lambda: dump_yanny(other, raw=raw)), sort_keys=True) != other_dump)
         st['outcome'] = classify(exc) if exc is not None else ('warning' if warned else 'ok')
         st['msg'] = str(exc)[:160] if exc is not None else ''
         res['steps'].append(st)
